@@ -562,6 +562,37 @@ def run(facts, tier, ctx):
         wz.fail(Finding("WORKERS/non-zero", dw.id, "no-nonzero-source", 0, dw.loc(), "no NonZeroUsize::get source found"))
     wz.require_floor(2, "worker-count sources")
     out.append(wz)
+    # ------------------------------------------------------------ QUEUE/consumers
+    # every protocol channel has exactly one receiving function (worker pop, feeder refill wait, hashing loop).  A second
+    # receiver - e.g. a helper that drains the encode queue when reading failed - takes blocks away from the workers: a
+    # queued block with an out-of-range sample is then never encoded and its error never reported, so which error the
+    # caller sees depends on the interleaving.
+    qc = RuleResult("QUEUE/consumers", "each protocol channel is received from by exactly one function")
+    recvs = {}
+    for b in facts.body_list:
+        if not (b.id.startswith("par::") or b.id.startswith("<par::")):
+            continue
+        for bi, tt in b.calls():
+            fn = tt.get("fn") or {}
+            d = fn.get("def") or ""
+            if d.startswith("crossbeam_channel::Receiver::<T>::") and fn.get("name") in (
+                    "recv", "try_recv", "recv_timeout", "recv_deadline", "iter", "try_iter", "into_iter"):
+                payload = (fn.get("gargs") or ["?"])[0]
+                recvs.setdefault(payload, []).append((b.id, fn.get("name"), b.loc(bi, "term")))
+    pop_ids_q = set(x.id for x in R.pop_fns)
+    for payload, sites in sorted(recvs.items()):
+        bodies = sorted(set(x[0] for x in sites))
+        sample = {"payload": payload, "receivers": bodies}
+        if len(bodies) == 1:
+            qc.ok(dict(sample, verdict="ok"))
+        else:
+            extra = [x for x in sites if x[0] not in pop_ids_q] if payload == "std::option::Option<usize>" else sites[1:]
+            qc.fail(Finding("QUEUE/consumers", (extra or sites)[0][0], "second-consumer:%s" % payload, 0, (extra or sites)[0][2],
+                            "the channel carrying %s is received from in %s: messages taken by %s never reach the function "
+                            "the protocol assigns them to (a queued block is dropped unencoded, a stop token or refill "
+                            "request is lost)" % (payload, bodies, (extra or sites)[0][0])), dict(sample, verdict="FAIL"))
+    qc.require_floor(3, "protocol channels")
+    out.append(qc)
     # ... and that non-zero count is what sizes the pool and the stop tokens (no arithmetic on the way; shared with C05)
     from . import c05
     out += [r for r in c05.shared_state(facts) if r.rule == "STATE-ENUM/shared"]
